@@ -12,7 +12,7 @@ import ticc_util as tu
 from common import show_list, frac_str
 
 LEVEL = "other"
-LEAN_PROPS = ["FastTicc.Props.C02", "FastTicc.Props.Compose", "FastTicc.Props.C03", "FastTicc.Props.C11", "FastTicc.Props.C18", "FastTicc.Props.C02matrix", "FastTicc.Props.C02opt"]
+LEAN_PROPS = ["FastTicc.Props.C02", "FastTicc.Props.Compose", "FastTicc.Props.C03", "FastTicc.Props.C11", "FastTicc.Props.C18", "FastTicc.Props.C02matrix", "FastTicc.Props.C02opt", "FastTicc.Props.AdmmSolve"]
 LEAN_HELPERS = ["FastTicc.Proofs.Admm", "FastTicc.Proofs.Compose", "FastTicc.Proofs.AdmmMatrix", "FastTicc.Proofs.LogDet"]
 RULE = ("(a) step functions (soft threshold, lambda sum, Z update, U update, stopping rule) on dyadic inputs for all (N,W) "
         "with NW<=8 (thorough: <=24), scalar and matrix lambda, rho in {1/8..8}, vs the model at Rat; X update against its "
@@ -87,6 +87,7 @@ def run(ctx):
     _run_main(ctx)
     if ctx.replay is None:
         _verbose_and_copies(ctx)
+        _whole_solve_replay(ctx)
 
 
 def _run_main(ctx):
@@ -382,6 +383,97 @@ def _run_main(ctx):
                  sample={"N": N, "W": W, "lambda": lam_kind, "rho": rho, "cov": kind, "stopped": stopped, "iterations": iters}
                  if len(ctx.samples) < 6 else None)
     ctx.extra["max_iterations_seen_on_stopped_runs"] = max_iter_seen
+
+
+def _whole_solve_replay(ctx):
+    """complete real solves replayed in the composed solve model (AdmmSolve.solve): the X update's outputs and the
+    norms of every convergence check are recorded; the model recomputes Z and U of every sweep at exact rationals,
+    evaluates the stopping rule and runs the loop; the number of sweeps must be equal, the returned vector must be
+    the last X, and the final Z and U must agree to rounding."""
+    import math
+    from fast_ticc import admm
+    from fast_ticc.admm import solver
+    lines, meta = [], []
+    for rep in range(6 if ctx.quick() else 60):
+        N, W = ctx.rng.choice([(1, 1), (1, 2), (2, 1), (2, 2), (1, 3), (3, 1), (2, 3)])
+        n = N * W
+        rs = np.random.RandomState(ctx.rng.randrange(2 ** 31))
+        A = rs.randn(3 * n + 2, n)
+        S = np.atleast_2d(np.cov(A.T))
+        use_matrix = rep % 3 == 2
+        if use_matrix:
+            M = np.round(rs.uniform(0, 0.5, size=(n, n)) * 16) / 16
+            lam = (M + M.T) / 2
+            lam_s = "matrix " + show_list(lam.tolist(), lambda r: show_list(r, lambda v: frac_str(Fraction(v))), ";")
+        else:
+            lam = float(ctx.rng.choice([0.0, 0.125, 0.25, 0.5]))
+            lam_s = f"scalar {frac_str(Fraction(lam))}"
+        rho = float(ctx.rng.choice([0.5, 1.0, 2.0]))
+        maxit = ctx.rng.choice([1, 2, 5, 40, 400])
+        rec = {"x": [], "z": [], "u": [], "norms": []}
+        ox, oz, ou, oc = solver.admm_update_x, solver.admm_update_z, solver.admm_update_u, solver.check_convergence
+
+        def ux(args, u, z, S_, _o=ox):
+            out = _o(args, u, z, S_)
+            rec["x"].append(np.array(out, copy=True))
+            return out
+
+        def uz(args, u, x, _o=oz):
+            out = _o(args, u, x)
+            rec["z"].append(np.array(out, copy=True))
+            return out
+
+        def uu(u, x, z, _o=ou):
+            out = _o(u, x, z)
+            rec["u"].append(np.array(out, copy=True))
+            return out
+
+        def cc(args, u, x, z, z_old, _o=oc):
+            nm = np.linalg.norm
+            rec["norms"].append((len(rec["x"]) - 1, [float(nm(x)), float(nm(z)), float(nm(args.rho * u)),
+                                                    float(nm(x - z)), float(nm(args.rho * (z - z_old)))]))
+            return _o(args, u, x, z, z_old)
+        with tu.patched(solver, "admm_update_x", ux), tu.patched(solver, "admm_update_z", uz), \
+                tu.patched(solver, "admm_update_u", uu), tu.patched(solver, "check_convergence", cc):
+            res = admm.admm_optimize_theta(S, lam, W, N, rho=rho, max_iterations=maxit)
+        sweeps = len(rec["x"])
+        if sweeps > 120:
+            continue                      # keep the exact replay small
+        norms = [[0.0] * 5 for _ in range(sweeps)]
+        for (i, v) in rec["norms"]:
+            norms[i] = v
+        fr = lambda v: frac_str(Fraction(float(v)))
+        m = n * (n + 1) // 2
+        lines.append(f"replaysolve {frac_str(Fraction(rho))} {lam_s} {N} {W} {maxit} {fr(math.sqrt(m))} 1/1000000 1/1000000 "
+                     + show_list(rec["x"], lambda v: show_list(v.tolist(), fr), ";") + " "
+                     + show_list(norms, lambda v: show_list(v, fr), ";"))
+        meta.append(({"solve": True, "N": N, "W": W, "rho": rho, "lam": "matrix" if use_matrix else lam, "maxit": maxit},
+                     sweeps, np.asarray(res.theta, dtype=float), rec))
+    for (case, sweeps, theta, rec), mo in zip(meta, ctx.driver.run(lines)):
+        parts = mo.split(" ")
+        if len(parts) != 4:
+            ctx.violation("correspondence-break", f"whole-solve model rejected the replay ({mo[:60]})", case)
+            continue
+        msweeps = int(parts[0])
+        P = lambda t: np.array([float(Fraction(v)) for v in (t.split(",") if t != "-" else [])])
+        mx, mz, mu = P(parts[1]), P(parts[2]), P(parts[3])
+        bad = []
+        if msweeps != sweeps:
+            bad.append(f"sweeps {msweeps} (model) vs {sweeps}")
+        if not np.array_equal(theta, rec["x"][-1]):
+            ctx.violation("impl-violation", "the optimiser did not return the X iterate of its last sweep", case, {"site": "returns-last-x"})
+        if msweeps == sweeps:
+            sc = 1.0 + float(np.max(np.abs(rec["x"][-1])))
+            if mx.shape != theta.shape or np.max(np.abs(mx - theta)) > 0:
+                bad.append("returned X")
+            if mz.shape != rec["z"][-1].shape or np.max(np.abs(mz - rec["z"][-1])) > 1e-9 * sc:
+                bad.append("final Z")
+            if mu.shape != rec["u"][-1].shape or np.max(np.abs(mu - rec["u"][-1])) > 1e-9 * sc * max(1, sweeps):
+                bad.append("final U")
+        if bad:
+            ctx.violation("correspondence-break", "whole-solve model (AdmmSolve.solve) and the real solver disagree on: " + "; ".join(bad), case)
+        ctx.count("whole_solve_replay:" + ("break" if bad else "equal"))
+        ctx.case(("solve", repr(sorted(case.items()))), nontrivial=sweeps >= 2)
 
 
 def _verbose_and_copies(ctx):
